@@ -15,10 +15,12 @@ use std::collections::{BTreeMap, BTreeSet};
 use std::sync::atomic::{AtomicU64, Ordering};
 
 pub const ADDRS: [u32; 3] = [0x4840d6, 0x4840d7, 0xa0b1c2];
+/// boundary addresses (all-zero, all-one, a single bit)
+pub const ADDRS_EDGE: [u32; 3] = [0x000000, 0xffffff, 0x000001];
 
 pub fn kinds() -> Vec<&'static str> {
     vec![
-        "DF0", "DF4", "DF5", "DF11", "DF16",
+        "DF0", "DF4", "DF5", "DF11", "DF11:ii=5", "DF11:residual", "DF16",
         "DF17:05", "DF17:05+pos", "DF17:06+pos", "DF17:08", "DF17:08#", "DF17:09gs", "DF17:09ias", "DF17:09tas",
         "DF17:61", "DF17:62", "DF17:65air1", "DF17:65air2", "DF17:65sfc2", "DF17:tc0",
         "DF18:05+pos", "DF18:06+pos", "DF18:08", "DF18:09gs",
@@ -45,6 +47,9 @@ pub fn make(kind: &str, a: u32, t: u32) -> Option<Message> {
         "DF4" => df4_5(4, 0, 0, 0, ac13_q(alt), a),
         "DF5" => df4_5(5, 0, 0, 0, sq, a),
         "DF11" => df11(5, a, 0),
+        // an all-call reply to an interrogator (II = 5) and one with a parity residual above 127 (still decoded and shown)
+        "DF11:ii=5" => df11(5, a, 5),
+        "DF11:residual" => df11(5, a, 0x004005),
         "DF16" => df16(0, 3, 3, ac13_q(alt), &[0x30, 0, 0, 0, 0, 0, 0], a),
         "DF17:05" | "DF17:05+pos" => df17(5, a, &me_bds05(11, 0, 0, ac12_q(alt), 0, (t & 1) as u8, 1000 + t, 2000 + t), 0),
         "DF17:06+pos" => df17(5, a, &me_bds06(7, (10 + t) as u8, 1, (t % 128) as u8, 0, (t & 1) as u8, 1000 + t, 2000 + t), 0),
@@ -158,14 +163,19 @@ const PROVENANCE_FIELDS: [&str; 15] = ["latitude", "longitude", "altitude", "sel
 
 /// Prepared record of (aircraft index, kind index) at history position `pos`
 pub struct Pool {
+    pub addrs: [u32; 3],
     pub kinds: Vec<&'static str>,
     /// [aircraft][kind][pos]
     pub recs: Vec<Vec<Vec<Option<Rec>>>>,
 }
 
 pub fn pool(kinds: Vec<&'static str>, depth: usize, equal_stamps: bool) -> Pool {
+    pool_for(ADDRS, kinds, depth, equal_stamps)
+}
+
+pub fn pool_for(addrs: [u32; 3], kinds: Vec<&'static str>, depth: usize, equal_stamps: bool) -> Pool {
     let mut recs = Vec::new();
-    for (ai, a) in ADDRS.iter().enumerate() {
+    for (ai, a) in addrs.iter().enumerate() {
         let mut per_kind = Vec::new();
         for k in &kinds {
             let mut per_pos = Vec::new();
@@ -190,11 +200,11 @@ pub fn pool(kinds: Vec<&'static str>, depth: usize, equal_stamps: bool) -> Pool 
         }
         recs.push(per_kind);
     }
-    Pool { kinds, recs }
+    Pool { addrs, kinds, recs }
 }
 
 fn hist_json(p: &Pool, hist: &[(usize, usize)], equal: bool) -> Value {
-    json!({"equal_stamps": equal, "kinds": if p.kinds.len() == kinds().len() { "all" } else { "core" }, "history": hist.iter().map(|(a, k)| json!([format!("{:06x}", ADDRS[*a]), p.kinds[*k]])).collect::<Vec<_>>()})
+    json!({"equal_stamps": equal, "kinds": if p.kinds.len() == kinds().len() { "all" } else { "core" }, "history": hist.iter().map(|(a, k)| json!([format!("{:06x}", p.addrs[*a]), p.kinds[*k]])).collect::<Vec<_>>()})
 }
 
 /// Judge one history. Returns number of table entries (for the outcome histogram).
@@ -373,6 +383,16 @@ pub fn run(ctx: &Ctx, rep: &Report) {
         nontriv += m;
     }
     rep.part("all kinds", total, json!({"kinds": all.kinds.len(), "aircraft": ADDRS.len(), "depth": d_all}));
+    // the same exploration one step shallower with the boundary addresses 000000 / ffffff / 000001
+    let edge = pool_for(ADDRS_EDGE, kinds(), d_all - 1, false);
+    let mut te = 0;
+    for len in 1..d_all {
+        let (t, m) = explore(&edge, len, false, ctx, rep, &oc);
+        te += t;
+        nontriv += m;
+    }
+    total += te;
+    rep.part("all kinds, boundary addresses", te, json!({"addresses": ["000000", "ffffff", "000001"], "depth": d_all - 1}));
     let core = pool(core_kinds(), d_core, false);
     let mut t2 = 0;
     for len in (d_all + 1)..=d_core {
@@ -412,11 +432,12 @@ pub fn replay(w: &Value, rep: &Report) {
     let equal = w["equal_stamps"].as_bool().unwrap_or(false);
     let ks = if w["kinds"].as_str() == Some("core") { core_kinds() } else { kinds() };
     let h: Vec<(String, String)> = w["history"].as_array().map(|a| a.iter().map(|x| (x[0].as_str().unwrap_or("").to_string(), x[1].as_str().unwrap_or("").to_string())).collect()).unwrap_or_default();
-    let p = pool(ks, h.len().max(1), equal);
+    let edge = h.iter().any(|(a, _)| ADDRS_EDGE.iter().any(|x| format!("{x:06x}") == *a) && !ADDRS.iter().any(|x| format!("{x:06x}") == *a));
+    let p = pool_for(if edge { ADDRS_EDGE } else { ADDRS }, ks, h.len().max(1), equal);
     let hist: Vec<(usize, usize)> = h
         .iter()
         .filter_map(|(a, k)| {
-            let ai = ADDRS.iter().position(|x| format!("{x:06x}") == *a)?;
+            let ai = p.addrs.iter().position(|x| format!("{x:06x}") == *a)?;
             let ki = p.kinds.iter().position(|x| x == k)?;
             Some((ai, ki))
         })
